@@ -262,13 +262,13 @@ theorem literal_variable_equiv_partial (reg : Reg) (hagree : CustomAgree reg) (v
 
 private def regInt : Reg := Reg.ofTypes [("Int", .int), ("String", .string), ("Boolean", .boolean)]
 
-/-- **literal_variable_equiv_refuted_cross_kind** (A8). `Int`, `true`: through a variable the resolver receives `True`,
+/-- **literal_variable_equiv_refuted_cross_kind** (A8). `Int`, `true`: through a variable the resolver receives `1`,
     inline the request is rejected. -/
 theorem literal_variable_equiv_refuted_cross_kind : ¬ LiteralVariableEquivFull := by
   intro h
   have := h regInt (.named "Int") (.bool true) (.bool true) .bool rfl
   have h1 : valueFromAst regInt none 1 (.named "Int") (.bool true) = .error .coercion := by rfl
-  have h2 : coerceValue regInt 1 (.named "Int") (.bool true) = .ok (.bool true) := by rfl
+  have h2 : coerceValue regInt 1 (.named "Int") (.bool true) = .ok (.int 1) := by rfl
   rw [h1, h2] at this
   simp [Except.toOption] at this
 
